@@ -441,10 +441,11 @@ var c16Objs = []objSpec{
 	{kNS, "", "ns1"},                  // 6
 	{kWidget, "ns1", "w"},             // 7
 	{kCRD, "", "widgets.example.com"}, // 8
+	{kWidget, "ns2", "w2"},            // 9  a second custom resource of the same kind, in another namespace
 }
 
 const (
-	oPodA, oPodB, oPodU, oCmA, oCmU, oDepA, oNs1, oWidget, oCrd = 0, 1, 2, 3, 4, 5, 6, 7, 8
+	oPodA, oPodB, oPodU, oCmA, oCmU, oDepA, oNs1, oWidget, oCrd, oWidget2 = 0, 1, 2, 3, 4, 5, 6, 7, 8, 9
 )
 
 func nVersions(k kindInfo) int {
@@ -874,7 +875,7 @@ func runWatcherCase(in watcherIn) (out watcherOut) {
 		}
 	}
 
-	ctx, cancel := context.WithCancel(context.Background())
+	ctx, cancel := ctxWithCause()
 	defer cancel()
 	var evCh <-chan event.Event
 	var reporter *watcher.ObjectStatusReporter
@@ -1086,6 +1087,9 @@ func genWatcherCase(rng *proto.Rng, ids []jid, st [][]string) watcherIn {
 	}
 	if crdScenario {
 		in.Watched = append(in.Watched, oWidget, oCrd)
+		if rng.Bool() {
+			in.Watched = append(in.Watched, oWidget2) // the same custom kind in a second namespace
+		}
 		in.WidgetOn = rng.Chance(1, 4)
 		in.LateServe = !in.WidgetOn && rng.Chance(1, 2)
 	}
@@ -1115,6 +1119,9 @@ func genWatcherCase(rng *proto.Rng, ids []jid, st [][]string) watcherIn {
 	mutable := []int{oPodA, oPodB, oPodU, oCmA, oCmU, oDepA}
 	if crdScenario {
 		mutable = append(mutable, oWidget)
+		if watchedHas(in.Watched, oWidget2) {
+			mutable = append(mutable, oWidget2, oWidget2)
+		}
 	}
 	nsGone := false
 	crdThere := false
@@ -1125,7 +1132,7 @@ func genWatcherCase(rng *proto.Rng, ids []jid, st [][]string) watcherIn {
 		if inNs1(i) && nsGone {
 			return
 		}
-		if i == oWidget && !crdThere {
+		if (i == oWidget || i == oWidget2) && !crdThere {
 			return // the Widget informer is certainly running only while the CRD object exists
 		}
 		if _, ok := cur[i]; ok && rng.Chance(1, 4) {
@@ -1181,9 +1188,11 @@ func genWatcherCase(rng *proto.Rng, ids []jid, st [][]string) watcherIn {
 			}
 		case crdScenario && rng.Chance(1, 3):
 			if crdThere && rng.Chance(1, 2) {
-				if _, ok := cur[oWidget]; ok {
-					add("del", oWidget)
-					delete(cur, oWidget)
+				for _, wi := range []int{oWidget, oWidget2} {
+					if _, ok := cur[wi]; ok {
+						add("del", wi)
+						delete(cur, wi)
+					}
 				}
 				add("bar")
 				add("del", oCrd)
@@ -1215,6 +1224,15 @@ func genWatcherCase(rng *proto.Rng, ids []jid, st [][]string) watcherIn {
 	return in
 }
 
+func watchedHas(w []int, i int) bool {
+	for _, x := range w {
+		if x == i {
+			return true
+		}
+	}
+	return false
+}
+
 // hand-written configurations the random generator cannot reach through Watch: a reporter whose scope and targets
 // disagree (root scope with namespaced targets and vice versa), with the informer table read back at the end.
 func directWatcherCases(ids []jid, st [][]string) []watcherIn {
@@ -1227,6 +1245,7 @@ func directWatcherCases(ids []jid, st [][]string) []watcherIn {
 	nsT := [3]string{"", "Namespace", ""}
 	crdT := [3]string{"apiextensions.k8s.io", "CustomResourceDefinition", ""}
 	widT := [3]string{"example.com", "Widget", "ns1"}
+	widT2 := [3]string{"example.com", "Widget", "ns2"}
 	s := func(x ...any) []any { return x }
 	var cs []watcherIn
 	for _, scope := range []string{"root", "ns"} {
@@ -1248,6 +1267,13 @@ func directWatcherCases(ids []jid, st [][]string) []watcherIn {
 		// the watch on pods breaks, pod a is deleted while it is down, the re-list reports it (DeletedFinalStateUnknown)
 		cs = append(cs, mk(scope, [][3]string{podNs1}, []int{oPodA},
 			[][]any{s("set", oPodA, 1), s("watch"), s("bar"), s("gapdel", oPodA), s("bar"), s("set", oPodA, 0), s("bar")}))
+		// the same custom kind watched in two namespaces; its CRD is installed after start, removed, installed again: every
+		// target of the kind is started / stopped, not one of them
+		if scope == "ns" {
+			cs = append(cs, mk(scope, [][3]string{widT, widT2, crdT}, []int{oWidget, oWidget2, oCrd},
+				[][]any{s("watch"), s("set", oCrd, 0), s("bar"), s("set", oWidget, 0), s("set", oWidget2, 0), s("bar"), s("set", oWidget2, 1), s("set", oWidget, 1), s("bar"),
+					s("del", oWidget), s("del", oWidget2), s("bar"), s("del", oCrd), s("bar"), s("set", oCrd, 1), s("bar"), s("set", oWidget2, 0), s("set", oWidget, 0), s("bar")}))
+		}
 		late := mk(scope, [][3]string{widT, crdT, podNs1}, []int{oWidget, oCrd, oPodA},
 			[][]any{s("watch"), s("set", oCrd, 0), s("bar"), s("set", oCrd, 1), s("bar"), s("set", oWidget, 0), s("bar"), s("set", oWidget, 1), s("bar"),
 				s("del", oWidget), s("bar")})
@@ -1361,7 +1387,7 @@ func runFatalCase(in fatalIn) (out fatalOut) {
 	if in.Scope == "root" {
 		strat = watcher.RESTScopeRoot
 	}
-	ctx, cancel := context.WithCancel(context.Background())
+	ctx, cancel := ctxWithCause()
 	defer cancel()
 	w := watcher.NewDefaultStatusWatcher(cl.client, cl.mapper)
 	ch := w.Watch(ctx, ids, watcher.Options{RESTScopeStrategy: strat})
@@ -1765,7 +1791,7 @@ func runLateCase(in lateIn) (out lateOut) {
 		}
 	}()
 	cl := newCluster([]kindInfo{kPod, kCM, kSvc, kDep, kRS, kNS})
-	ctx, cancel := context.WithCancel(context.Background())
+	ctx, cancel := ctxWithCause()
 	defer cancel()
 	st := &pagingState{pages: in.Pages}
 	st.onPage = func(n int) {
